@@ -107,6 +107,13 @@ def shapes(m, n, arg, rng):
                                                                             "STOP"]))
         out.append((f"{style}+SETITEM", pre + ["EMPTY_DICT"] + val_ops("k", binary) + g + ["EMPTY_TUPLE", "REDUCE",
                                                                                           "SETITEM", "STOP"]))
+    # a completed call followed by an opcode fickling has no class / no run for ("awkward" opcodes)
+    g0 = glob_ops(m, n, "GLOBAL")
+    call = g0 + ["MARK"] + val_ops(arg, False) + ["TUPLE", "REDUCE", "POP"]
+    for awk in (("PERSID", asm.RawArg(b"pid\n")), ("EXT1", 1), ("EXT2", 1), ("EXT4", 1), ("FLOAT", 1.5),
+                ("BYTEARRAY8", b"ba"), ("LONG", 5), ("BINFLOAT", 1.5)):
+        out.append((f"call-then-{awk[0]}", call + [awk, "STOP"]))
+    out.append(("call-then-NEXT_BUFFER", call + ["NEXT_BUFFER", "STOP"]))
     out.append(("INST", ["MARK"] + val_ops(arg, False) + [("INST", (m, n)), "STOP"]))
     out.append(("INST+BUILD", ["MARK", ("INST", (m, n)), "EMPTY_DICT", "BUILD", "STOP"]))
     out.append(("PERSID", [("PERSID", asm.RawArg(f"{m}.{n}\n".encode())), "STOP"]))
@@ -211,7 +218,7 @@ def build_corpus(rng, tier, scale=1):
             named=[x for p in parts for x in p["named"]])
     # byte-level corruptions and truncations of all of them
     base = list(cases)
-    per = (1 if tier == "quick" else 12) * scale
+    per = (1 if tier == "quick" else 30) * scale
     for c in base:
         # dangerous programs get every corruption kind over time; valid pickles fewer
         k = per * (2 if c["family"] != "valid" else 1)
@@ -343,6 +350,8 @@ def judge(r, case, meta):
             bad.append(f"file changed: {k}")
     for k in r["deleted"]:
         bad.append(f"file deleted: {k}")
+    if r["outcome"] == "RunTimeout":
+        bad.append("the run did not finish within the per-run time limit (inertness cannot be certified)")
     if r["outcome"] == "blocked-by-monitor":
         bad.append("a dangerous operation was attempted and blocked by the monitor")
     if r["stdout"] or r["stderr"]:
@@ -380,7 +389,7 @@ def evaluate(chk, cases, results, meta, pred, count=True):
         if count:
             chk.count()
             if c["family"] != "valid":
-                chk.nontriv((c["label"].split("(")[0] if c["family"] == "corrupted" else c["label"], r["entry"]))
+                chk.nontriv((c["data"], r["entry"]))      # distinct by input bytes x entry point
             st = chk.stats.setdefault("outcome", {})
             st[r["outcome"]] = st.get(r["outcome"], 0) + 1
             for cl in classes:
@@ -413,11 +422,23 @@ def main(tier, seed):
                 "socket.socket / importlib.import_module / canary modules (not-yet-imported, dotted, pre-imported "
                 "tripwire) / not-yet-imported stdlib modules through GLOBAL and STACK_GLOBAL x {bare, REDUCE, "
                 "REDUCE+POP, OBJ, NEWOBJ, NEWOBJ_EX, BUILD, BUILD-on-global, BINPERSID, memo+DUP, nested, APPENDS, "
-                "SETITEM} + INST, PERSID, EXT1; stacked files; %d kinds of byte-level corruption / truncation of all "
+                "SETITEM} + INST, PERSID, EXT1 + a completed call followed by an opcode fickling cannot run "
+                "(PERSID, EXT1/2/4, FLOAT, BYTEARRAY8, NEXT_BUFFER, ...); stacked files; %d kinds of byte-level corruption / truncation of all "
                 "of them; every input is run through %d entry points in sandboxed children under an audit hook. "
                 "A case is non-trivial when its input is not a plain valid pickle; distinct by "
-                "(global, shape | corruption kind, entry point)" % (len(benign_values()), len(CORRUPTIONS),
+                "(input bytes, entry point)" % (len(benign_values()), len(CORRUPTIONS),
                                                                    len(ENTRIES)))
+    chk.extra["trusted_base_c01"] = [
+        "gen/gen_callgraph.py + gen/effect_tables.py: completeness of the Python call-graph extraction (reflection, "
+        "monkey-patching from modules outside the scope, callables smuggled through external containers are not "
+        "seen statically) and the effect class given to each stdlib leaf (genops, ast.unparse, in_stdlib, json.dump, "
+        "argparse ...) are TRUSTED; both are cross-examined on every run by the audit-hook monitor",
+        "CPython audit events (PEP 578) as the observation channel; attribute resolution on an already imported "
+        "module raises no audit event and is observed only through the tripwire module verif_canary_pre",
+        "the claim is partial: proof over the call-graph abstraction + differential monitoring, not a proof about "
+        "CPython's execution of fickling",
+    ]
+    chk.extra["assumptions"] = []
     built = chk.regen_and_build(["proofs/EffectsProofs.vo"])
     cg = {}
     try:
@@ -461,7 +482,7 @@ def main(tier, seed):
             if pred:
                 chk.extra["model_predicted_effects"] = {k: sorted(v) for k, v in pred.items()}
         t0 = time.time()
-        results, abnormal, meta = run_children(cases, ENTRIES, scratch, timeout=900 if tier == "quick" else 3000)
+        results, abnormal, meta = run_children(cases, ENTRIES, scratch, timeout=300 if tier == "quick" else 2400)
         chk.stats["monitor_wall_s"] = round(time.time() - t0, 1)
         chk.stats["entry_points_run"] = meta.get("hello")
         expected_runs = len(cases) * len(meta.get("hello", []))
@@ -496,8 +517,8 @@ def main(tier, seed):
                             "input_hex": c["data"].hex(), "entry": a["running"][1], "label": c["label"],
                             "child_output": a["output"]}
             # ... then a larger corpus with fresh corruptions
-            for rnd in range(2 if tier == "quick" else 4):
-                more = build_corpus(chk.rng, "thorough" if rnd else "quick", scale=1 + rnd)
+            for rnd in range(2 if tier == "quick" else 3):
+                more = build_corpus(chk.rng, "quick", scale=3 + 6 * rnd)
                 sc2 = os.path.join(scratch, f"search{rnd}")
                 res2, abn2, meta2 = run_children(more, ENTRIES, sc2, timeout=600)
                 chk.stats["search_runs"] = chk.stats.get("search_runs", 0) + len(res2)
